@@ -367,15 +367,15 @@ def run(ctx):
         exe = vf.build_driver(ctx)
     ctx.log('build done')
     if exe:
-        try: correspond(ctx, exe, 4000 if ctx.thorough else 300)
+        try: correspond(ctx, exe, 3000 if ctx.thorough else 300)
         except Exception as e:
             traceback.print_exc()
             ctx.proof_failures.append({'kind': 'harness', 'name': 'correspondence-crashed', 'detail': traceback.format_exc()[-2000:]})
     ctx.log('correspondence done')
     oracle_witnesses(ctx)
-    oracle(ctx, 40000 if ctx.thorough else 2400)
+    oracle(ctx, 30000 if ctx.thorough else 2400)
     ctx.log('oracle (generated) done')
-    oracle_fortran(ctx, 6000 if ctx.thorough else 400)
+    oracle_fortran(ctx, 4000 if ctx.thorough else 400)
     ctx.log('oracle (fortran-style files) done')
     oracle_files(ctx)
     ctx.log('oracle (files) done')
